@@ -402,6 +402,19 @@ func c01Hazards(c *fw.Ctx) {
 		}
 	}
 	c.State("inputs of a few odd bytes")
+	// function values where a value is expected: stored, compared, sorted, serialised, iterated, called after being moved
+	fns := []string{"num", "json", "printf", "f", "a.push", "s.split", "o.pluck", "n.floor"}
+	uses := []string{"a.push(FN); print a.sort(), a", "a.push(FN); print a.contains(1), a.contains(FN), a.pop()", "o.k = FN; print o, json(o), o.pluck(\"k\")", "x = FN; print x(\"1\")", "print [FN, FN].sort(), [FN].length()",
+		"print FN + 1, FN < 2, FN == FN, FN ~ \"a\", !FN, -FN", "print match (FN) { 1 => 1, g => g(\"2\") }", "for (v in FN) { print v } for (k, v in [FN]) { print k }", "print FN.length(), FN[0], FN.k", "printf(\"%v %s\\n\", FN, FN)",
+		"function g(p) { return p } print g(FN), g(FN)(\"3\")", "a[5] = FN; a[FN] = 1; o[FN] = 2; print a, o", "$ = FN; print $", "print s.split(FN), num(FN), json([FN])", "x = [FN]; y = x.sort(); y.push(FN); print y.sort()"}
+	for _, fn := range fns {
+		for _, use := range uses {
+			prog := "function f(v) { return v } { a = [3, 1]; o = {j: 1}; s = \"a,b\"; n = 2.5; " + strings.ReplaceAll(use, "FN", fn) + " }"
+			s := c01Spec{Form: "text", Program: prog, Data: `[1]`, HasData: true, Fuzzing: true}
+			c.Do(func() any { return s }, func() *fw.Violation { return c01RunOne(c, s) })
+		}
+	}
+	c.State("function values where a value is expected")
 }
 
 func c01CLI(c *fw.Ctx, s c01Spec) *fw.Violation {
